@@ -856,13 +856,20 @@ def limiter_wiring(rep, lib, rid="C08-LIMITER-WIRING"):
     aggs = [rv for bb, idx, place, rv, _ in ctor.assignments() if rv["k"] == "agg" and rv.get("adt") == "limits::Limiter"]
     cpr = Prov(ctor, LOOK)
     okc = len(aggs) == 1
+    renamed = False
     if okc:
         named = dict(zip(aggs[0]["fields"], aggs[0]["ops"]))
-        for fld, param in (("skip", 1), ("limit", 2), ("next", 3)):
-            at = {a for a in cpr.origins(named[fld]) if a[0] in ("arg", "call", "const", "agg")}
-            if at != {("arg", param, ())}:
-                okc = False
-    if okc:
+        if not all(f in named for f in ("skip", "limit", "next")):
+            renamed = True       # other field names: what the limiter does with them is decided by the limiter machine
+        else:
+            for fld, param in (("skip", 1), ("limit", 2), ("next", 3)):
+                at = {a for a in cpr.origins(named[fld]) if a[0] in ("arg", "call", "const", "agg")}
+                if at != {("arg", param, ())}:
+                    okc = False
+    if okc and renamed:
+        r.ok("create_process#fields", "the limiter's fields have other names than skip / limit / next: not judged here "
+             "(the limiter machine evaluates the behaviour)", ctor.where(), nontrivial=False)
+    elif okc:
         r.ok("create_process#fields", "skip, limit and next are the parameters of that name", ctor.where())
     else:
         r.bad("create_process#fields", "the limiter's fields are not initialised from the parameters of the same meaning",
